@@ -10,7 +10,8 @@ import (
 	jsoniter "github.com/json-iterator/go"
 )
 
-var json = jsoniter.ConfigFastest
+// Do not use jsoniter.ConfigFastest here: it encodes floats with 6 digits only and would alter job variables
+var json = jsoniter.ConfigCompatibleWithStandardLibrary
 
 type PersistedJob struct {
 	ID       uuid.UUID
